@@ -22,7 +22,7 @@ func prepareC18(work string) ([]string, []string, func(), error) {
 	}
 	cleanup := func() { os.RemoveAll(scratch) }
 	dst := filepath.Join(scratch, "repo")
-	if out, err := exec.Command("cp", "-r", "/repo", dst).CombinedOutput(); err != nil {
+	if out, err := exec.Command("cp", "-r", repoPath, dst).CombinedOutput(); err != nil {
 		cleanup()
 		return nil, nil, nil, fmt.Errorf("copy: %v %s", err, out)
 	}
@@ -47,6 +47,7 @@ func prepareC18(work string) ([]string, []string, func(), error) {
 		return nil, nil, nil, err
 	}
 	mod := strings.Replace(string(gm), "=> /repo", "=> "+dst, 1)
+	os.RemoveAll(filepath.Join(dst, "seeded"))
 	modfile := filepath.Join(scratch, "go.mod")
 	os.WriteFile(modfile, []byte(mod), 0o644)
 	if gs, err := os.ReadFile(filepath.Join(verif, "sim", "go.sum")); err == nil {
